@@ -130,6 +130,8 @@ class EdgeLib(LibBase):
         return 6 if "cancel" in fn or fn in ("put", "get") else 1
 
     def chi(self, cls, name, old, args):
+        if name == "always":
+            return None
         return None
 
     # ------------------------------------------------------------------ state
@@ -289,6 +291,9 @@ class EdgeLib(LibBase):
         con = self.contracts[cls].get(name) or self.contracts["Edge"].get(name)
         if con is None:
             raise Unsupported("call to self.%s() which has no contract (line %d)" % (name, lineno))
+        if con.is_generator:
+            from pyvc.execute import VGen
+            return [(VGen(name, {}), st)]
         amap = {}
         for k, (pn, kind, default) in enumerate(con.params):
             if k < len(args):
@@ -331,10 +336,20 @@ class EdgeLib(LibBase):
     def builtin(self, ex, name, args, kw, st, node):
         """BufferStore(env, capacity=..., mode=...) / FleetStore(env, capacity=..., delay=..., transit_delay=...):
         the store's __init__ contract applied to a fresh sub-state"""
-        if name not in ("BufferStore", "FleetStore"):
+        if name == "int" and len(args) == 1 and isinstance(args[0], Num):
+            # int(x): truncation towards zero
+            x = args[0]
+            if x.is_int:
+                return [(x, st)]
+            return [(Num(z3.If(x.t >= 0, z3.ToInt(x.t), -z3.ToInt(-x.t))), st)]
+        if name not in ("BufferStore", "FleetStore", "BeltStore"):
             return None
         cls = ex.ctx.cls
         scls = PROFILES[cls]["store"]
+        if name == "BeltStore":
+            # BeltStore(env, capacity, delay) / BeltStore(env, capacity, speed, accumulating): positional
+            kw = dict(kw)
+            kw["capacity"] = args[1]
         con = self.storelib.contracts[scls]["__init__"]
         s = st.fork()
         tag = "new%s" % logic.fresh("n").decl().name().split("!")[1]
@@ -349,6 +364,14 @@ class EdgeLib(LibBase):
         amap = {"capacity": Num(z3.ToInt(capn.t) if not capn.is_int else capn.t, inf=z3.BoolVal(False))}
         if scls == "B":
             amap["mode"] = kw.get("mode")
+        if scls == "S":
+            # the BeltStore subclass in slotted_conveyor.py passes mode="FIFO" to the belt store proper
+            amap["delay"] = V.as_num(num(args[2]))
+            amap["mode"] = VStr("FIFO")
+        if scls == "C":
+            amap["speed"] = V.as_num(num(args[2]))
+            acc = args[3]
+            amap["accumulation_mode_indicator"] = VBool(V.truth(acc))
         outs = []
         # exceptional case of the store constructor (capacity <= 0) cannot happen after Edge.__init__ accepted it
         ex.ctx.oblige("store-constructor.capacity-positive@L%d" % node.lineno, st, [capn.t >= 1], "call-pre", node.lineno, ("C20",))
@@ -407,7 +430,21 @@ class EdgeLib(LibBase):
             s.heap_set(e, "triggered", VBool(False))
             s.assume(S.FOREIGN(e.t))            # allocated by the edge, not by its store
             return [(e, s)]
+        if name == "process" and len(args) == 1:
+            from pyvc.execute import VGen
+            if isinstance(args[0], VGen):
+                s = st.fork()
+                s.ghost.setdefault("spawned", []).append((args[0].name, args[0].args))
+                return [(s.fresh_obj("proc"), s)]
         raise Unsupported("env.%s() in an edge method (line %d)" % (name, node.lineno))
+
+    def call_opaque(self, ex, base, name, args, kw, st, node):
+        if getattr(base, "tag", "") == "module:np" and name == "ceil" and len(args) == 1 and isinstance(args[0], Num):
+            x = args[0]
+            if x.is_int:
+                return [(x, st)]
+            return [(Num(z3.ToReal(-z3.ToInt(-x.t))), st)]       # ceiling, as a float
+        return None
 
     def call_obj(self, ex, base, name, args, kw, st, node):
         if base.kind == "event" and name == "succeed":
@@ -426,7 +463,10 @@ class EdgeLib(LibBase):
     def call_super(self, ex, name, args, st, lineno):
         # Edge.__init__(env, id, capacity) by contract
         con = self.contracts["Edge"]["__init__"]
-        amap = {"env": args[0], "id": args[1], "capacity": args[2]}
+        cap = args[2]
+        if isinstance(cap, Num):
+            cap = V.dyn_of(cap)
+        amap = {"env": args[0], "id": args[1], "capacity": cap}
         return apply_contract(ex, con, amap, st, lineno, self, ex.ctx.cls)
 
     # ------------------------------------------------------------------ contracts
@@ -756,6 +796,8 @@ def _conveyor_contracts(lib, cls, C, passthrough, connected, store_state, avgfie
     cont = cls == "CConveyor"
     for nm in ("reserve_put_cancel", "reserve_get_cancel"):
         C.pop(nm, None)      # the conveyor edges have no cancel methods
+    _conveyor_init(lib, cls, C)
+    _conveyor_state_contract(lib, cls, C)
 
     def travel(st):
         if cont:
@@ -819,6 +861,113 @@ def _conveyor_contracts(lib, cls, C, passthrough, connected, store_state, avgfie
     C["get"].modifies = C["get"].modifies + (avgfield,) + tuple(PFX + x for x in (
         "_weighted_sum", "_last_level_change_time", "_last_num_items", "time_averaged_num_of_items_in_store"))
     C["get"].heap_modifies = tuple(C["get"].heap_modifies) + ("conveyor_exit_time", "triggered")
+
+
+def _conveyor_init(lib, cls, C):
+    """constructors of the two conveyor edges.  Documented domain (precondition): slot delay / speed / lengths > 0.
+    C12: the travel time handed to the belt store by put() is capacity*delay (slotted) resp.
+    item_length*capacity/speed (continuous); for the continuous belt the statement wants conveyor_length/speed,
+    i.e. item_length*capacity == conveyor_length (finding D8 when the length is not an integral multiple)."""
+    cont = cls == "CConveyor"
+    beh = FnContract("behaviour", [], is_generator=True, props=("C12",))
+    beh.assumed = True          # state machine with one-shot events and interrupts: NOT verified
+    C["behaviour"] = beh
+
+    def cap_of(c):
+        if not cont:
+            return None
+        L, il = c.args["conveyor_length"].t, c.args["item_length"].t
+        ce = z3.ToReal(-z3.ToInt(-L))
+        q = ce / il
+        return z3.If(q >= 0, z3.ToInt(q), -z3.ToInt(-q))
+
+    def id_ok(c):
+        return c.args["id"].tag == V.T_STR
+
+    def cap_ok(c):
+        if cont:
+            return cap_of(c) >= 1
+        cap = c.args["capacity"]
+        return z3.And(z3.Or(cap.tag == V.T_INT, cap.tag == V.T_BOOL), cap.num > 0)
+
+    def post(c):
+        n = c.new
+        ss = project(n)
+        items = [Clause("starts-empty", lambda c: z3.And(ss.f[S.ITEMS].len == 0, ss.f[S.RD].len == 0), ("C20", "C12")),
+                 Clause("unconnected", lambda c: z3.And(n.f["src_node"].isnone, n.f["dest_node"].isnone), ("C20",)),
+                 Clause("starts-idle", lambda c: n.f["state"].t == V.str_const("IDLE_STATE"), ("C12",)),
+                 Structural("starts-its-behaviour-process", lambda c: len(
+                     [x for x in c.new.ghost.get("spawned", []) if x[0] == "behaviour"]) == 1, ("C20",))]
+        if cont:
+            items += [
+                Clause("capacity-is-the-number-of-item-lengths-on-the-belt", lambda c: n.f["capacity"].t == cap_of(c), ("C12", "C01")),
+                Clause("speed-and-item-length-recorded", lambda c: z3.And(
+                    n.f["speed"].t == c.args["speed"].t, n.f["length"].t == c.args["item_length"].t,
+                    n.f["conveyor_length"].t == c.args["conveyor_length"].t), ("C12",)),
+                Clause("travel-time-is-belt-length-over-speed", lambda c: n.f["length"].t * z3.ToReal(n.f["capacity"].t)
+                       == c.args["conveyor_length"].t, ("C12",))]
+        else:
+            items += [Clause("capacity-recorded", lambda c: z3.ToReal(n.f["capacity"].t) == c.args["capacity"].num, ("C20", "C01", "C12")),
+                      Clause("slot-delay-recorded", lambda c: n.f["delay"].t == c.args["delay"].t, ("C12",))]
+        return items
+    if cont:
+        params = [("env", ("env",), None), ("id", ("dyn",), None), ("conveyor_length", ("num", "real"), None),
+                  ("speed", ("num", "real"), None), ("item_length", ("num", "real"), None), ("accumulating", ("num", "int"), None)]
+        pre = lambda st, args: [("documented-domain", z3.And(args["conveyor_length"].t > 0, args["speed"].t > 0,
+                                                              args["item_length"].t > 0))]
+    else:
+        params = [("env", ("env",), None), ("id", ("dyn",), None), ("capacity", ("dyn",), None),
+                  ("delay", ("num", "real"), None), ("accumulating", ("num", "int"), None)]
+        pre = lambda st, args: [("documented-domain", args["delay"].t > 0)]
+    con = FnContract(
+        "__init__", params, pre=pre, post=post,
+        excs=[ExcCase("TypeError", lambda c: z3.Not(id_ok(c)), "id-not-a-string", unchanged=False, props=("C20",)),
+              ExcCase("ValueError", lambda c: z3.And(id_ok(c), z3.Not(cap_ok(c))), "no-room-for-a-single-item", unchanged=False,
+                      props=("C20",))],
+        normal_requires=lambda c: z3.And(id_ok(c), cap_ok(c)),
+        uses_inv=False, keeps_inv=True, is_init=True, props=("C20", "C12", "C01"))
+    con.no_frame = True
+    C["__init__"] = con
+
+
+def _conveyor_state_contract(lib, cls, C):
+    """set_conveyor_state(new_state): the state is recorded; entering a stalled state from a running one plans the
+    interruptions (exactly one selective_interrupt), leaving a stalled state for a running one fires the pending
+    resume signal (so every waiting mover continues) -- C12/C13 protocol at the level of 'which belt-store operation
+    is invoked when'; the planners themselves are assumed."""
+    cont = cls == "CConveyor"
+    RUN = ("MOVING_STATE", "IDLE_STATE")
+
+    def isin(t, names):
+        return z3.Or(*[t == V.str_const(x) for x in names])
+
+    def post(c):
+        o, n = c.old, c.new
+        os_, ns_ = o.f["state"].t, c.args["new_state"].t
+        stalls = z3.And(isin(os_, RUN), isin(ns_, STALLED))
+        resumes = z3.And(isin(os_, STALLED), isin(ns_, RUN))
+        calls = [k[0] for k in n.ghost.get("store_calls", [])[len(o.ghost.get("store_calls", [])):]]
+        nsel = calls.count("selective_interrupt")
+        nres = calls.count("resume_all_move_processes")
+        so = project(o)
+        items = [Clause("state-recorded", lambda c: n.f["state"].t == ns_, ("C12",)),
+                 Structural("a-stall-plans-the-interruptions-once", lambda c: (stalls if nsel == 1 else z3.Not(stalls))
+                            if nsel <= 1 else z3.BoolVal(False), ("C12",), caller_effect=lambda c: None),
+                 Structural("leaving-a-stall-resumes-the-movers", lambda c: (resumes if nres == 1 else z3.Not(resumes))
+                            if nres <= 1 else z3.BoolVal(False), ("C12",), caller_effect=lambda c: None),
+                 Clause("leaving-a-stall-fires-the-pending-resume-signal", lambda c: z3.Implies(
+                     resumes, S.trig(project(n), so.f["resume_event"].t)), ("C12",))]
+        if cont:
+            acc = o.f["accumulating"].t != 0
+            fl0 = so.f["noaccumulation_mode_on"].t
+            items.append(Clause("non-accumulating-flag-follows-the-stall", lambda c: project(n).f["noaccumulation_mode_on"].t == z3.If(
+                z3.And(stalls, z3.Not(acc)), True, z3.If(z3.And(resumes, z3.Not(acc)), False, fl0)), ("C12",)))
+        return items
+    mods = ("state", PFX + "resume_event", PFX + "active_move_processes") + (
+        (PFX + "noaccumulation_mode_on", PFX + "active_delayed_interrupt_processes") if cont else ())
+    C["set_conveyor_state"] = FnContract(
+        "set_conveyor_state", [("new_state", ("str",), None)], post=post, modifies=mods, heap_modifies=("triggered",),
+        allocates=True, props=("C12", "C20"))
 
 
 def _told_ok(c, stalled, ncalls):
